@@ -100,7 +100,9 @@ def _norm_effect(e, ignore_kinds, ignore_calls, ordered=False, store_fields=None
         from ..norm import Rat
         # `x op= v` is `x = x op v`: one text for both spellings (the old value is the location's own atom)
         if isinstance(how, str) and how.startswith("aug:") and isinstance(val, Rat):
-            cur = Rat.atom(tgt)
+            # the value before the store as the evaluator tracked it (a store earlier on the path is seen), else the
+            # location's own atom
+            cur = e[4] if len(e) > 4 and isinstance(e[4], Rat) else Rat.atom(tgt)
             op = how[4:]
             try:
                 nv = {"Add": lambda: cur + val, "Sub": lambda: cur - val, "Mult": lambda: cur * val, "Div": lambda: cur / val}.get(op)
